@@ -12,22 +12,28 @@
    no method body is executed here.
 
    WHAT IS PROVED.
+   (4) src_construct_eq -- THE COMPOSED THEOREM.  Under DECIDABLE conditions on the tables and on the layout of the message
+       (tables_ok T, layout_cond T po, guard_cond T cks po) and with a call-depth budget D >= depth_needed T po,
+         r := rrun dob W (msgdec_ext T) wfuel srco_msgdec_prog D "__init__" [payload_arg po; VInt l] [] tt      (EMPTY store)
+         construct T po l = Ok o'      -> exists a', r = (ROk VNone, (a', tt)) /\ store_rel a' o' /\ o_immutable o' = true
+                          = Lib e      -> exists a', r = (RExc (liberr_class e), (a', tt))
+                          = Foreign k  -> exists a', r = (RExc (dec_exc_class k), (a', tt))
+                          = Unmodelled -> nothing claimed
+       construct is Model.Message.construct itself, the constructor the theorems C03 / C04 / C06 / C09 are about.
+   It is obtained in three steps, each a theorem of its own (the first two need fewer conditions and stay usable where guard_cond fails):
    (1) construct_g T po l  -- "the guarded constructor": Model.Message.construct with
          - the field step set_single replaced by set_single_guarded T ident (Src/PyOMsgDecLemmas.v): set_single where the test
            single_pre holds of (label, index, object, offset), "not modelled" elsewhere.  single_pre is a test on the RUNNING object:
            a STR field finds its attribute absent or a str; at DF396 the attributes NSAT / NSIG are absent or ints, and the object
            handed to _getsatcellmaps has no str among DF394 / DF395 / DF396 and reads DF396 as an int if the masks select no cell;
          - a str-valued repeat count "not modelled" (dec_item_s; PyO has no range() of a non-int, CPython raises TypeError).
-       construct_g_refines:  every outcome of construct_g other than "not modelled" IS the outcome of construct T po l
-                             (the constructor the theorems C03 / C04 / C06 / C09 are about).
-   (2) src_construct_guarded: under DECIDABLE conditions on the tables (tables_ok T, layout_cond T po) and a call-depth budget
-       D >= depth_needed T po = 6 + body_depth (layout of the message),
-         construct_g = Ok o'      -> __init__ returns None, the store is store_rel to o', and o' is frozen
-                     = Lib e      -> __init__ raises liberr_class e
-                     = Foreign k  -> __init__ raises dec_exc_class k
-                     = Unmodelled -> nothing claimed.
-   (3) src_construct_model: (1) and (2) read together, against the model itself: if construct_g T po l is not "not modelled"
-       (followed T po l = true, a computable test) the source-level run has the outcome of construct T po l.
+       construct_g_refines:  every outcome of construct_g other than "not modelled" IS the outcome of construct T po l.
+   (2) src_construct_guarded: under tables_ok T, layout_cond T po and the budget, the run r is construct_g T po l (as in (4), with
+       construct_g for construct).  (3) src_construct_model reads (1) and (2) together: if construct_g T po l is not "not modelled"
+       (followed T po l = true, a computable test on the payload) the run has the outcome of construct T po l.
+   (3') construct_g_eq: under guard_cond T cks po the guard is never met -- construct_g T po l = construct T po l
+       (Src/PyOMsgDecGuard.v: a typing invariant of the attributes set so far is kept by the walk and implies single_pre; it also
+       makes every repeat count an int).  (2) and (3') give (4).
 
    THE HYPOTHESES that remain (all boolean, decided per run in run/SrcMsgDec_tables_inst.v):
      tables_ok T        the four names NA / NSAT / NSIG / NCELL of the source text are T's, and every data field passes fd_ok
@@ -37,10 +43,18 @@
                         no label "IDF038" at any level (true division, not in PyO: excludes exactly message 4076_201), no duplicate
                         labels in a dict, count / condition keys not a prefix of a fixed attribute or of a name bound in the class,
                         no label that IS a fixed attribute or a name bound in the class
+     guard_cond T cks po  (only for (3') and (4); cks: any list of strings, meant: the repeat-count keys of the layouts)
+                        gt_ok T cks: no STR field key, none of NSAT / NSIG / DF394 / DF395 / DF396 and no key in cks contains "_"; every
+                        data field whose key is one of those five or starts with a key in cks is an int field (not CHA / STR / PRN / CPR /
+                        CSG, resolution 0 or 1); NSAT / NSIG / NCELL are not STR field keys;
+                        g_body cks false b for the layout b of THIS message: the count key of every group is in cks, no label "IDF038",
+                        no label "DF396" inside a repeated group
      depth_needed T po <= D
                         call-depth budget: 3 (__init__, _do_attributes, _set_attribute at the top) + 2 per nesting level + 3
                         (_set_attribute_single, _getsatcellmaps, identity / __setattr__ below it)
-   wfuel (the `while` budget) is arbitrary: the path has no while loop. *)
+   wfuel (the `while` budget) is arbitrary: the path has no while loop.
+   The same for every message of the tables at once (layouts_ok, layouts_guard_ok, with a list excl of excluded identities):
+   src_construct_guarded_all, src_construct_model_all, src_construct_eq_all. *)
 From Coq Require Import ZArith NArith List String Bool Lia.
 From PyRtcm Require Import Base.Bytes Model.Types Model.Message.
 From PyRtcm Require Import Proofs.DecodeWalk.
@@ -87,6 +101,9 @@ Proof.
   unfold consts_ok. intro H. repeat (apply andb_true_iff in H; destruct H as [H ?]).
   repeat split; apply String.eqb_eq; assumption.
 Qed.
+
+(* the first argument of the constructor call: the payload bytes, or None *)
+Definition payload_arg (po:option bytes) : val dob := match po with Some p => VBytes p | None => VNone end.
 
 (* ================= the guarded constructor ================= *)
 Section Compose.
@@ -164,7 +181,7 @@ Qed.
 (* (2) __init__ from the EMPTY store is the guarded constructor *)
 Theorem src_construct_guarded D po l :
   tables_ok T = true -> layout_cond T po = true -> (depth_needed T po <= D)%nat ->
-  let r := rrun dob W ext wfuel srco_msgdec_prog D "__init__" [S3.payload_val po; VInt l] [] tt in
+  let r := rrun dob W ext wfuel srco_msgdec_prog D "__init__" [payload_arg po; VInt l] [] tt in
   match construct_g po l with
   | Ok o' => exists a', r = (ROk VNone, (a', tt)) /\ store_rel a' o' /\ o_immutable o' = true
   | Lib e => exists a', r = (RExc (liberr_class e), (a', tt))
@@ -188,7 +205,7 @@ Definition followed (po:option bytes) (l:Z) : bool := match construct_g po l wit
 Theorem src_construct_model D po l :
   tables_ok T = true -> layout_cond T po = true -> (depth_needed T po <= D)%nat ->
   followed po l = true ->
-  let r := rrun dob W ext wfuel srco_msgdec_prog D "__init__" [S3.payload_val po; VInt l] [] tt in
+  let r := rrun dob W ext wfuel srco_msgdec_prog D "__init__" [payload_arg po; VInt l] [] tt in
   match construct T po l with
   | Ok o' => exists a', r = (ROk VNone, (a', tt)) /\ store_rel a' o' /\ o_immutable o' = true
   | Lib e => exists a', r = (RExc (liberr_class e), (a', tt))
@@ -239,7 +256,7 @@ Qed.
    Model/Message.v). *)
 Theorem src_construct_eq T wfuel cks D po l :
   tables_ok T = true -> layout_cond T po = true -> guard_cond T cks po = true -> (depth_needed T po <= D)%nat ->
-  let r := rrun dob W (msgdec_ext T) wfuel srco_msgdec_prog D "__init__" [S3.payload_val po; VInt l] [] tt in
+  let r := rrun dob W (msgdec_ext T) wfuel srco_msgdec_prog D "__init__" [payload_arg po; VInt l] [] tt in
   match construct T po l with
   | Ok o' => exists a', r = (ROk VNone, (a', tt)) /\ store_rel a' o' /\ o_immutable o' = true
   | Lib e => exists a', r = (RExc (liberr_class e), (a', tt))
@@ -291,7 +308,7 @@ Qed.
 (* (2') and (3') with the conditions on the tables as a whole: any message whose identity is not excluded *)
 Theorem src_construct_guarded_all T wfuel excl maxd D po l :
   tables_ok T = true -> layouts_ok T excl maxd = true -> (6 + maxd <= D)%nat -> not_excluded excl po = true ->
-  let r := rrun dob W (msgdec_ext T) wfuel srco_msgdec_prog D "__init__" [S3.payload_val po; VInt l] [] tt in
+  let r := rrun dob W (msgdec_ext T) wfuel srco_msgdec_prog D "__init__" [payload_arg po; VInt l] [] tt in
   match construct_g T po l with
   | Ok o' => exists a', r = (ROk VNone, (a', tt)) /\ store_rel a' o' /\ o_immutable o' = true
   | Lib e => exists a', r = (RExc (liberr_class e), (a', tt))
@@ -305,7 +322,7 @@ Qed.
 Theorem src_construct_model_all T wfuel excl maxd D po l :
   tables_ok T = true -> layouts_ok T excl maxd = true -> (6 + maxd <= D)%nat -> not_excluded excl po = true ->
   followed T po l = true ->
-  let r := rrun dob W (msgdec_ext T) wfuel srco_msgdec_prog D "__init__" [S3.payload_val po; VInt l] [] tt in
+  let r := rrun dob W (msgdec_ext T) wfuel srco_msgdec_prog D "__init__" [payload_arg po; VInt l] [] tt in
   match construct T po l with
   | Ok o' => exists a', r = (ROk VNone, (a', tt)) /\ store_rel a' o' /\ o_immutable o' = true
   | Lib e => exists a', r = (RExc (liberr_class e), (a', tt))
@@ -332,7 +349,7 @@ Qed.
 Theorem src_construct_eq_all T wfuel excl cks maxd D po l :
   tables_ok T = true -> layouts_ok T excl maxd = true -> layouts_guard_ok T excl cks = true ->
   (6 + maxd <= D)%nat -> not_excluded excl po = true ->
-  let r := rrun dob W (msgdec_ext T) wfuel srco_msgdec_prog D "__init__" [S3.payload_val po; VInt l] [] tt in
+  let r := rrun dob W (msgdec_ext T) wfuel srco_msgdec_prog D "__init__" [payload_arg po; VInt l] [] tt in
   match construct T po l with
   | Ok o' => exists a', r = (ROk VNone, (a', tt)) /\ store_rel a' o' /\ o_immutable o' = true
   | Lib e => exists a', r = (RExc (liberr_class e), (a', tt))
@@ -346,17 +363,14 @@ Qed.
 
 Goal True. idtac "PA:construct_g_refines". Abort.
 Print Assumptions construct_g_refines.
-(* each of the following walks the whole symbolic execution of the three files: ~13 s apiece *)
+Goal True. idtac "PA:construct_g_eq". Abort.
+Print Assumptions construct_g_eq.
+(* each of the following walks the whole symbolic execution of the three files: ~13 s apiece.  src_construct_guarded_all and
+   src_construct_model_all (corollaries of the second and third) are printed where they are used, in run/SrcMsgDec_tables_inst.v *)
 Goal True. idtac "PA:src_construct_guarded". Abort.
 Print Assumptions src_construct_guarded.
 Goal True. idtac "PA:src_construct_model". Abort.
 Print Assumptions src_construct_model.
-Goal True. idtac "PA:src_construct_guarded_all". Abort.
-Print Assumptions src_construct_guarded_all.
-Goal True. idtac "PA:src_construct_model_all". Abort.
-Print Assumptions src_construct_model_all.
-Goal True. idtac "PA:construct_g_eq". Abort.
-Print Assumptions construct_g_eq.
 Goal True. idtac "PA:src_construct_eq". Abort.
 Print Assumptions src_construct_eq.
 Goal True. idtac "PA:src_construct_eq_all". Abort.
